@@ -269,6 +269,8 @@ func (e *Engine) opDump(c *cursor) *Violation {
 			e.St.Probes["load-into-reset-world"]++
 		}
 		ls := &Sys{Name: "load", W: &lw, idxOfID: map[uint8]int{}}
+		type loadProbe struct{ V uint8 }
+		ls.probeID, ls.hasProbe = ecs.ComponentID[loadProbe](&lw), true
 		// a resource added before loading: LoadEntities is about entities only
 		type loadMarker struct{ V uint64 }
 		marker := &loadMarker{V: uint64(e.step)}
@@ -578,6 +580,27 @@ func (e *Engine) checkLoad(ls *Sys) *Violation {
 	for _, h := range e.M.Dead {
 		if lw.Alive(h) {
 			return mk("%v is dead in the source world but alive in the loaded one", h)
+		}
+	}
+	// the unchecked accessors are documented to panic for a removed entity whose ID is not in use again
+	if ls.hasProbe {
+		n := 0
+		for _, h := range e.M.Dead {
+			if _, inUse := e.M.ByID[h.ID()]; inUse || n >= 6 {
+				continue
+			}
+			n++
+			panicked := func() (p bool) {
+				defer func() { p = recover() != nil }()
+				lw.HasUnchecked(h, ls.probeID)
+				return
+			}()
+			if !panicked {
+				v := mk("HasUnchecked(%v) in the loaded world did not panic although the entity is removed and its ID is not in use", h)
+				v.Class = "no-panic"
+				v.Also = append(v.Also, "dump-diff")
+				return v
+			}
 		}
 	}
 	if used := lw.Stats().Entities.Used; used != len(e.M.Alive) {
